@@ -74,3 +74,35 @@ def run_bin_sharded(bindir, name, args, nshards=None, timeout=3600, env=None):
     out = ([stats] if stats else []) + viols + ([{'done': True}] if done else [])
     bad = [rc for rc in rcs if rc != 0]
     return out, (bad[0] if bad else 0), '\n'.join(errs)[-2000:]
+
+
+HEAP_DIAGNOSTICS = ('double free or corruption', 'malloc(): ', 'free(): invalid', 'corrupted size vs. prev_size', 'munmap_chunk(): invalid', 'malloc_consolidate(): ',
+                    'corrupted double-linked list', 'realloc(): invalid')
+
+
+def crash_kind(rc, err):
+    """how a monitor process died: 'memory' = the allocator's own consistency checks or a segmentation fault / bus error while the
+    monitor (safe Rust on top of the library's safe API) was running: memory corruption inside the library, a violation;
+    'alloc_failure' / 'killed' = resource exhaustion, inconclusive; None = not a crash"""
+    if rc in (0, 'timeout') or rc is None:
+        return None
+    if 'memory allocation of' in err and 'failed' in err:
+        return 'alloc_failure'
+    if any(d in err for d in HEAP_DIAGNOSTICS) or rc in (-11, -7, 139, 135):
+        return 'memory'
+    if rc in (-9, 137):
+        return 'killed'
+    return None
+
+
+def report_crash(ctx, name, args, rc, err):
+    """call when the monitor binary did not finish; returns True if the crash was reported as a violation"""
+    if crash_kind(rc, err) == 'memory':
+        ctx.evaluations += 1
+        ctx.nontrivial_counted += 2
+        ctx.sample({'monitor': name, 'args': list(args), 'died_with': str(rc)})
+        ctx.violation('monitor_crash_memory', {'case': name, 'args': list(args), 'returncode': str(rc), 'stderr_tail': err[-1500:].split('\n'),
+                                               'summary': 'the monitor process (safe code over the safe API) died of memory corruption: rc=%s %s' % (rc, err.strip().split('\n')[-1][:200])},
+                      {'what': 'memory_corruption'})
+        return True
+    return False
